@@ -80,15 +80,25 @@ PROPS = {
         assumptions=[A['A3'], A['A4'], "ff::BitIterator contract (MSB-first bits of the limb value) assumed: dependency", A['D_FQ'], A['TOOLS']],
     ),
     'C02': dict(
-        units_quick=['scalar', 'precomp'], units_thorough=['scalar', 'precomp', 'curve'], timeout=600,
+        units_quick=['scalar', 'precomp', 'wnaf'], units_thorough=['scalar', 'precomp', 'wnaf', 'curve'], timeout=600,
         claim="PARTIAL: the plain scalar-multiplication paths (real bodies, G1 and G2): affine mul_bits / mul (double and mixed add, MSB first) and "
               "projective mul_assign (leading-zero skipping) return [k]P for every limb value k of the scalar representation (all 2^256 values, any limb "
               "count for mul_bits), by a loop invariant over ff's BitIterator contract and proved bit-decomposition lemmas. The 256-entry table path (real bodies, G1 and G2): "
               "precomp_256 fills entry b with [sum over the set bits j of b of 2^(32j)]P for all 256 b, and mul_precomp_256 returns [k]P for every 256-bit k given such a "
-              "table (the eight extraction expressions are related to the bits of the 32-bit chunks by bit-vector lemmas stated over the code's own expressions).",
-        not_covered=["wNAF (wnaf_table, wnaf_form, wnaf_exp, Wnaf contexts) - contracts not completed", "precomp_3 / mul_precomp_3 - contracts not completed",
-                     "recommended_wnaf_* ranges - not completed", "ff::BitIterator itself (dependency; contract assumed)"],
-        assumptions=[A['A3'], "ff::BitIterator contract assumed (dependency)", "group-level contracts of double / add_assign / add_assign_mixed are the statements of unit curve lifted through A3", A['TOOLS']],
+              "table (the eight extraction expressions are related to the bits of the 32-bit chunks by bit-vector lemmas stated over the code's own expressions). "
+              "wNAF (real generic bodies of src/wnaf.rs, every window 1..=22): wnaf_table replaces the buffer by the odd multiples P, 3P, ..., (2^w - 1)P whatever it held before; "
+              "wnaf_form replaces the digit buffer by digits d_i (0 or odd, |d_i| < 2^w) with sum d_i 2^i == c for every c with c + 2^w below the limb capacity, whatever it held before, and terminates; "
+              "wnaf_exp returns [sum d_i 2^i]P for every such table and digit string with every table index in bounds; hence wnaf_exp(wnaf_table(P, w), wnaf_form(k, w)) == [k]P. "
+              "The recommended window sizes (empirical_recommended_wnaf_* and the trait entry points, G1 and G2) lie in 2..=22 for every input.",
+        not_covered=["the Wnaf context methods (base / scalar / shared: type-state wrappers over AsRef / AsMut that call wnaf_table / wnaf_form / wnaf_exp in sequence) are not under contract: "
+                     "reuse-independence is carried by the three contracts having no precondition on the previous buffer contents; the refutation search drives the contexts with reuse histories",
+                     "precomp_3 / mul_precomp_3 - contracts not completed (driven by the refutation search only)",
+                     "ff::BitIterator itself (dependency; contract assumed)"],
+        assumptions=[A['A3'], "ff::BitIterator contract assumed (dependency)", "group-level contracts of double / add_assign / add_assign_mixed / sub_assign are the statements of unit curve lifted through A3",
+                     "wnaf_form sees PrimeFieldRepr through integer-level contracts of is_zero / is_odd / as_ref()[0] / From<u64> / sub_noborrow / add_nocarry / div2 (those the C08 Kani harnesses prove for FrRepr / FqRepr limb-wise); "
+                     "FrRepr::num_bits <= 256 (C08 harness num_bits)",
+                     "wnaf_exp carries two ghost (erased) parameters, the base point and the window, that its contract refers to",
+                     "rewrites R3s (for n in x.iter().rev()), R4b (for r in &CONST_ARRAY), R13 (integer-literal fallback i32 written out), R14 (operators on &i64 written with explicit deref)", A['TOOLS']],
     ),
     'C04': dict(
         units_quick=['codec', 'scalar'], units_thorough=['codec', 'scalar', 'curve'], timeout=600,
